@@ -61,6 +61,7 @@ DepositEvents(s) ==
            Dep("e1", q, "u2", "u1", D1, 2, "d2", HookMsgs("u1", << [to |-> "u3", denom |-> D1, amt |-> 3] >>), "none")}
    ELSE {})
   \cup {Wd(a, "u2", d, n) : a \in {"u1", "u3"}, d \in {D1, N1, D2}, n \in {0, 1, 3}}
+  \cup {Wd("u1", "u2", D1, 4)}           \* 4 units = 2^64: the L1 could never pay it
   \cup {Wd("u1", "bad:empty", D1, 1), Wd("u1", "u2", "bad:denom", 1)}
   \cup (IF s.params.hookGas = "ample" /\ q = 1 THEN {Upd("opchild", [s.params EXCEPT !.hookGas = g]) : g \in {"tiny", "zero"}} ELSE {})
   \cup {Send("u1", "u3", D1, 1)}
@@ -88,7 +89,7 @@ Events(s) ==
     [] Fam = "deposit" -> DepositEvents(s)
     [] Fam = "auth"    -> AuthEvents(s)
 
-S0 == InitState(Accts, Denoms, Funded, Params0, 2, Devs)
+S0 == InitState(Accts, Denoms, Funded, Params0, 3, Devs)
 
 ASSUME PrintT("META " \o ToJson([accts |-> Accts, denoms |-> Denoms, funded |-> Funded, params |-> Params0, devs |-> Devs]))
 
